@@ -61,6 +61,9 @@ TEMPLATES = r'''
 int printf(const char *, ...);
 static int loopsw(int n) { int r = 0; for (int i = 0; i < n; ++i) { switch (i & 3) { case 0: continue; case 1: r += 1; break; case 2: r += 10; default: r += 100; } r += 1000; } return r; }
 static int nested(int a, int b) { int r = 0; switch (a) { case 1: switch (b) { case 1: r = 11; break; case 2: r = 12; break; default: r = 19; } r += 100; break; case 2: r = 2; break; default: r = 9; } return r; }
+static int nest2(int a, int b) { int r = 0; switch (a) { case 5: r = 50; break; case 1: switch (b) { case 5: r = 15; break; case 7: r = 17; break; } break; case 7: r = 70; break; default: r = 90; break; case 9: switch (b) { default: r = 99; break; case 1: r = 91; } r += 1000; } return r; }
+static int nest3(long long a, int b) { int r = 0; switch (a) { case 4294967297LL: r = 1; break; case 1: r = 2; switch (b) { case 1: r += 10; break; case 2: r += 20; } break; case 2: for (int i = 0; i < 2; ++i) switch (b + i) { case 2: r += 100; break; default: r += 1; } break; default: r = 7; } return r; }
+static int nest4(int a, int b, int c) { switch (a) { default: return -1; case 0: switch (b) { case 0: switch (c) { case 0: return 0; case 1: return 1; } return 2; case 1: return 3; } return 4; case 1: return 5; } }
 static int duff(int n) { int r = 0, i = (n + 3) / 4; if (n <= 0) return 0; switch (n % 4) { case 0: do { r += 1; case 3: r += 1; case 2: r += 1; case 1: r += 1; } while (--i > 0); } return r; }
 static int nocase(int v) { switch (v) { } return 7; }
 static int onlydef(int v) { switch (v) { default: return 5; } return 6; }
@@ -73,6 +76,9 @@ static int bf(int x) { struct { int b : 3; unsigned u : 2; } s; s.b = x; s.u = x
 int main(void) {
 	for (int i = -1; i < 9; ++i) printf("%d %d %d %d %d %d ", loopsw(i), duff(i), nocase(i), onlydef(i), blocklabel(i), folded(i));
 	for (int a = 0; a < 4; ++a) for (int b = 0; b < 4; ++b) printf("%d ", nested(a, b));
+	for (int a = 0; a < 11; ++a) for (int b = 0; b < 9; ++b) printf("%d ", nest2(a, b));
+	for (int a = 0; a < 4; ++a) for (int b = 0; b < 4; ++b) printf("%d %d ", nest3(a, b), nest3(4294967296LL + a, b));
+	for (int a = -1; a < 3; ++a) for (int b = -1; b < 3; ++b) for (int c = -1; c < 3; ++c) printf("%d ", nest4(a, b, c));
 	for (int c = -2; c < 3; ++c) printf("%d ", charctl((char)c));
 	printf("%d %d %d %d %d ", folded(10), folded(4), folded(44), folded(300), folded(5));
 	printf("%d %d %d %d %d %d ", longctl(4294967296LL), longctl(0), longctl(-4294967296LL), longctl(1LL << 62), longctl(1), longctl(-1));
@@ -120,10 +126,10 @@ def _job(a):
         try:
             got = ilexec.exec_program(src, d, name)
         except ilexec.CompileError as e:
-            return (kind, name, src, ('cproc-rejects', e.status, e.err[:300]), None, None)
+            got = ('cproc-rejects', e.status, e.err[:300])
         ref1 = ilexec.exec_reference(src, d, name, 'gcc')
         ref2 = ilexec.exec_reference(src, d, name, 'clang')
-        return (kind, name, src, got[:2], ref1[:2], ref2[:2])
+        return (kind, name, src, got if got[0] == 'cproc-rejects' else got[:2], ref1[:2], ref2[:2])
     finally:
         shutil.rmtree(d, ignore_errors=True)
 
@@ -153,6 +159,10 @@ def run(chk, treemc_exe):
             continue
         evals += len(r1[1].split())
         outs.add(r1[1])
+        if got[0] == 'cproc-rejects':
+            chk.violation('switch/rejects-valid/%s' % (kind if kind == 'states' else name), 'switch program %s is accepted and run by gcc and clang, cproc: status %s: %s' % (name, got[1], got[2]),
+                          files={'input.c': src.encode()}, cmd='$CPROC_QBE input.c > /dev/null')
+            continue
         if got != r1:
             fam = 'switch/%s/%s' % (kind, name.split('_')[0] if kind == 'states' else name)
             detail = first_diff(got, r1)
